@@ -3,6 +3,7 @@ package main
 import (
 	"fmt"
 	"go/constant"
+	"go/token"
 	"go/types"
 	"sort"
 	"strings"
@@ -31,6 +32,82 @@ type dsOp struct {
 	direct bool   // on the datastore itself (not a batch)
 	ctor   string // key constructor name (getHeaderKey ...), "" if unknown
 	key    *Term
+	val    *Term // the value written, when it is not simply argument 2 (a row of a table of entries)
+}
+
+// putValue: the value a Put writes.
+func (o dsOp) putValue() *Term {
+	if o.val != nil {
+		return o.val
+	}
+	return ArgTerm(o.node, 2)
+}
+
+// tableField: v reads field f of an element of a local array literal (a table of entries walked
+// by a loop): the table and the field's label.
+func tableField(v ssa.Value, depth int) (*ssa.Alloc, string) {
+	if depth > 5 || v == nil {
+		return nil, ""
+	}
+	elemOf := func(x ssa.Value) *ssa.Alloc {
+		switch e := x.(type) {
+		case *ssa.Index:
+			if ld, ok := e.X.(*ssa.UnOp); ok && ld.Op == token.MUL {
+				if al, ok := ld.X.(*ssa.Alloc); ok {
+					return al
+				}
+			}
+		case *ssa.IndexAddr:
+			if al, ok := e.X.(*ssa.Alloc); ok {
+				return al
+			}
+		case *ssa.Alloc:
+			// the loop variable: a local holding a copy of the ranged element
+			var vals []ssa.Value
+			for _, r := range *e.Referrers() {
+				if st, ok := r.(*ssa.Store); ok && st.Addr == ssa.Value(e) {
+					vals = append(vals, st.Val)
+				}
+			}
+			if len(vals) == 1 {
+				if ix, ok := vals[0].(*ssa.Index); ok {
+					if ld, ok := ix.X.(*ssa.UnOp); ok && ld.Op == token.MUL {
+						if al, ok := ld.X.(*ssa.Alloc); ok {
+							return al
+						}
+					}
+				}
+			}
+		}
+		return nil
+	}
+	switch x := v.(type) {
+	case *ssa.Field:
+		if al := elemOf(x.X); al != nil {
+			return al, fieldLabel(x.X.Type(), x.Field)
+		}
+	case *ssa.UnOp:
+		if fa, ok := x.X.(*ssa.FieldAddr); ok && x.Op == token.MUL {
+			if al := elemOf(fa.X); al != nil {
+				return al, fieldLabel(fa.X.Type(), fa.Field)
+			}
+		}
+	case *ssa.Call:
+		for _, a := range x.Common().Args {
+			if al, f := tableField(a, depth+1); al != nil {
+				return al, f
+			}
+		}
+	case *ssa.Convert:
+		return tableField(x.X, depth+1)
+	case *ssa.ChangeType:
+		return tableField(x.X, depth+1)
+	case *ssa.MakeInterface:
+		return tableField(x.X, depth+1)
+	case *ssa.Slice:
+		return tableField(x.X, depth+1)
+	}
+	return nil, ""
 }
 
 var isCurrentHeight func(t *Term) bool
@@ -142,6 +219,34 @@ func runC14(c *Check) {
 				}
 				return true
 			})
+			// a table of entries written by one loop: one operation per row
+			if call, isCall := n.In.(*ssa.Call); isCall && op.ctor == "" && op.method == "Put" && len(call.Common().Args) >= 3 {
+				kal, kf := tableField(call.Common().Args[1], 0)
+				val, vf := tableField(call.Common().Args[2], 0)
+				if kal != nil && kal == val {
+					rows := litStores(kal)
+					expanded := false
+					for i := 0; ; i++ {
+						ks, vs := rows[fmt.Sprintf("[%d].%s", i, kf)], rows[fmt.Sprintf("[%d].%s", i, vf)]
+						if len(ks) != 1 || len(vs) != 1 {
+							break
+						}
+						row := op
+						row.key, row.val = TermOf(ks[0], n.Ctx), TermOf(vs[0], n.Ctx)
+						row.key.Walk(func(t *Term) bool {
+							if l := ctorOf(t); l != "" {
+								row.ctor = l
+							}
+							return true
+						})
+						ops = append(ops, row)
+						expanded = true
+					}
+					if expanded {
+						continue
+					}
+				}
+			}
 			ops = append(ops, op)
 		}
 	}
@@ -177,37 +282,83 @@ func runC14(c *Check) {
 		} else {
 			c.Bad("C14-R1", "SaveBlockData ⟂ no-direct-write", fn, p.InstrPos(direct[0].In), "a record of a block is written to the datastore directly, outside the batch: a crash can leave a partial block", nil)
 		}
-		kinds := map[string]bool{}
-		for _, n := range puts {
-			ArgTerm(n, 1).Walk(func(t *Term) bool {
-				if l := ctorOf(t); l != "" {
-					kinds[l] = true
+		// the records written: one per Put, or one per row when a loop writes a table of entries
+		var rows []dsOp
+		for _, o := range ops {
+			if o.fn != save || o.method != "Put" {
+				continue
+			}
+			for _, pn := range puts {
+				if pn.In == o.node.In {
+					rows = append(rows, o)
 				}
-				return true
-			})
+			}
+		}
+		kinds := map[string]bool{}
+		for _, o := range rows {
+			if o.ctor != "" {
+				kinds[o.ctor] = true
+			}
 		}
 		want := []string{"getDataKey", "getHeaderKey", "getIndexKey", "getSignatureKey"}
 		got := sortedKeys(kinds)
-		if strings.Join(got, ",") == strings.Join(want, ",") && len(puts) == 4 {
+		if strings.Join(got, ",") == strings.Join(want, ",") && len(rows) == 4 {
 			c.OK("C14-R1", "SaveBlockData ⟂ four-records", fn, p.Pos(save.Pos()), "header, data, signature and hash index are put into the batch", true)
 		} else {
-			c.Bad("C14-R1", "SaveBlockData ⟂ four-records", fn, p.Pos(save.Pos()), fmt.Sprintf("expected one Put each for header, data, signature, index; found %d puts of kinds %v", len(puts), got), nil)
+			c.Bad("C14-R1", "SaveBlockData ⟂ four-records", fn, p.Pos(save.Pos()), fmt.Sprintf("expected one Put each for header, data, signature, index; found %d puts of kinds %v", len(rows), got), nil)
 		}
 		if len(commits) != 1 {
 			c.Bad("C14-R1", "SaveBlockData ⟂ single-commit", fn, p.Pos(save.Pos()), fmt.Sprintf("%d Commit calls", len(commits)), nil)
 		} else {
-			for i, pn := range puts {
-				pp := pn
-				path := g.PathAvoiding([]*Node{g.Entry}, nodeSet(commits), func(n *Node) bool { return n == pp })
-				c.Decide("C14-R1", fmt.Sprintf("SaveBlockData ⟂ put-%d<commit", i+1), fn, p.InstrPos(pn.In), "the record is in the batch before Commit", "Commit is reachable without this record having been put", g, path)
+			for i, o := range rows {
+				var pp *Node
+				for _, pn := range puts {
+					if pn.In == o.node.In {
+						pp = pn
+					}
+				}
+				inst := fmt.Sprintf("SaveBlockData ⟂ put-%d<commit", i+1)
+				if o.val == nil {
+					path := g.PathAvoiding([]*Node{g.Entry}, nodeSet(commits), func(n *Node) bool { return n == pp })
+					c.Decide("C14-R1", inst, fn, p.InstrPos(pp.In), "the record is in the batch before Commit", "Commit is reachable without this record having been put", g, path)
+					continue
+				}
+				// a row of a table written by a loop: Commit is reached only through the edge that
+				// leaves the loop after its last row, the loop counts to the number of rows, and
+				// every iteration passes the Put (the only other ways out are error returns)
+				hb := loopHeaderOf(pp.In.Block())
+				var exhausted, body []*Node
+				okCount := false
+				if hb != nil {
+					if ifi, ok := hb.Instrs[len(hb.Instrs)-1].(*ssa.If); ok {
+						if cmp, ok := ifi.Cond.(*ssa.BinOp); ok && cmp.Op == token.LSS {
+							if k, ok := cmp.Y.(*ssa.Const); ok && k.Value != nil && int(k.Int64()) == len(rows) {
+								okCount = true
+							}
+						}
+						exhausted = g.Select(func(n *Node) bool { return n.Kind == NFalse && n.In == ssa.Instruction(ifi) })
+						body = g.Select(func(n *Node) bool { return n.Kind == NTrue && n.In == ssa.Instruction(ifi) })
+					}
+				}
+				head := g.headNode(pp.Ctx, hb)
+				switch {
+				case hb == nil || !okCount || len(exhausted) == 0 || len(body) == 0 || head == nil:
+					c.Bad("C14-R1", inst, fn, p.InstrPos(pp.In), "the record is written by a loop over a table of entries that is not a plain count over all its rows: Commit may be reached without it", nil)
+				default:
+					path := g.PathAvoiding([]*Node{g.Entry}, nodeSet(commits), nodeSet(exhausted))
+					if path == nil {
+						path = g.PathAvoiding(body, func(n *Node) bool { return n == head }, func(n *Node) bool { return n == pp })
+					}
+					c.Decide("C14-R1", inst, fn, p.InstrPos(pp.In), "the record is in the batch before Commit (a row of a table the loop walks completely)", "Commit is reachable without this record having been put", g, path)
+				}
 			}
 			commitOK := g.Select(ErrNilEdge(func(t *Term) bool { return t.Op == "invoke" && strings.HasSuffix(t.Name, ".Commit") }))
 			c.Decide("C14-R1", "SaveBlockData ⟂ success-only-after-commit", fn, p.InstrPos(commits[0].In), "success is returned only after Commit succeeded",
 				"SaveBlockData can return success without a successful Commit", g, g.PathAvoiding([]*Node{g.Entry}, g.SuccessExits(), nodeSet(commitOK)))
 			// all keys for the same height; index maps the header's hash to that height
 			hts := map[string]bool{}
-			for _, pn := range puts {
-				ArgTerm(pn, 1).Walk(func(t *Term) bool {
+			for _, o := range rows {
+				o.key.Walk(func(t *Term) bool {
 					if ctorOf(t) != "" && len(t.Args) == 1 {
 						hts[t.Args[0].String()] = true
 					}
@@ -609,7 +760,7 @@ func runC14(c *Check) {
 		}
 		switch o.method {
 		case "Put":
-			e.w[codecW(ArgTerm(o.node, 2))] = true
+			e.w[codecW(o.putValue())] = true
 		case "Get":
 			e.r[codecR(o)] = true
 		}
